@@ -7,3 +7,6 @@ export CARGO_NET_OFFLINE=true
 ( cd engine && cargo build --release --offline --target-dir target )
 ( cd engine && cargo build --release --offline --features subject-std --target-dir target-std )
 ./engine/target/release/cosetmc selftest
+# explorer cross-check against stateright (same state counts on the HeaderBuilder model)
+( cd engine && cargo build --release --offline --features xcheck --target-dir target-xcheck )
+./engine/target-xcheck/release/cosetmc xcheck
